@@ -225,8 +225,8 @@ def sing_case(cid, kind, w, wrapper, cap, pad, ext, placement="top", enum_order=
     b.feats.add("kind:%s" % kind)
     if ext:
         b.feats.add("msg_ext")
-    desc = "SING kind=%s%s wrapper=%s cap=%s pad=%d ext=%s place=%s order=%s%s" % (
-        kind, w or "", wrapper, cap, pad, ext, placement, enum_order, "" if fnum == 2 else " fnum=%d" % fnum)
+    desc = "SING kind=%s%s wrapper=%s cap=%s pad=%d ext=%s place=%s order=%s%s%s" % (
+        kind, w or "", wrapper, cap, pad, ext, placement, enum_order, "" if fnum == 2 else " fnum=%d" % fnum, "" if tail else " last-member")
     return b.finish("M" + cid, ext, fields, desc)
 
 
@@ -265,6 +265,12 @@ def sing_space(tier: str) -> List[Case]:
         for wrapper in WRAPPERS:
             for fnum in (254, 255):
                 add(sing_case("s%d" % n, kind, w, wrapper, 3, 3, False, "top", "zero_first", True, fnum))
+    # the field under test is the LAST member of the struct and the last bits of the message (nothing absorbs an access beyond it)
+    for kind, w in leaf_kinds(widths, ew):
+        add(sing_case("s%d" % n, kind, w, "scalar", 0, 3, False, tail=False))
+        for wrapper in ("arr", "alias_arr", "arr2d"):
+            for cap in (3, 5):
+                add(sing_case("s%d" % n, kind, w, wrapper, cap, 0, False, tail=False))
     # enum declaration order deviation: first declared member non-zero
     for w in ew:
         for wrapper in ("scalar", "arr", "arr_ext", "alias_arr", "msg", "arr_msg"):
@@ -391,6 +397,53 @@ def tree_space(nmax: int) -> List[Case]:
         for sh in tree_shapes(n):
             cases.append(tree_case("t%d" % k, sh))
             k += 1
+    return cases
+
+
+# ------------------------------------------------------------------------ HOMONYMS
+def homonym_space() -> List[Case]:
+    """Two DIFFERENT definitions with the SAME local name and different widths in one compilation
+    (nested in sibling messages / local vs imported), in both orders: whatever is remembered per
+    name instead of per definition (type caches, helper-name tables, memoised lookups) collides."""
+    cases, n = [], 0
+    for w1, w2 in ((3, 16), (16, 3), (9, 33), (33, 9), (20, 5)):
+        for arr in (False, True):
+            # (a) enums nested in sibling messages
+            cid = "h%d" % n
+            n += 1
+            b = CaseBuilder(cid)
+            e1 = EnumDef("Kind", w1, enum_members(w1, cid + "a"))
+            e2 = EnumDef("Kind", w2, enum_members(w2, cid + "b"))
+
+            def use(e):
+                t = Named(e, "Kind")
+                return Array(t, 2) if arr else t
+
+            ma = MessageDef("A" + cid, False, (e1, Field(use(e1), "k", 1), Field(Uint(2), "p", 2)))
+            mb = MessageDef("B" + cid, False, (e2, Field(use(e2), "k", 1), Field(Bool(), "q", 2)))
+            b.nested += [ma, mb]
+            b.feats.update({"homonym", "homonym:nested-enum", "enum"} | ({"enum_width>8"} if max(w1, w2) > 8 else set()))
+            fields = [Field(Uint(3), "pad", 1), Field(Named(ma, ma.name), "a", 2), Field(Named(mb, mb.name), "b", 3), Field(Uint(5), "tail", 4)]
+            cases.append(b.finish("M" + cid, False, fields, "HOMONYM nested enums Kind:uint%d / Kind:uint%d array=%s" % (w1, w2, arr)))
+            # (b) an imported enum and a local enum of the same name; (c) the same with aliases (signed, so that sign handling is per definition)
+            for kind in ("enum", "alias"):
+                cid = "h%d" % n
+                n += 1
+                b = CaseBuilder(cid)
+                if kind == "enum":
+                    d1 = EnumDef("Mode" + cid, w1, enum_members(w1, cid + "a"))
+                    d2 = EnumDef("Mode" + cid, w2, enum_members(w2, cid + "b"))
+                    b.feats.update({"enum"} | ({"enum_width>8"} if max(w1, w2) > 8 else set()))
+                else:
+                    d1 = AliasDef("Tick" + cid, Int(w1))
+                    d2 = AliasDef("Tick" + cid, Int(w2))
+                r1 = b.place(d1, "libp")
+                r2 = b.place(d2, "top")
+                # C has one global name space: the two definitions collide there unless c.name_prefix is used (C10 excludes such schemas for C)
+                b.feats.update({"homonym", "homonym:imported-%s" % kind, "c_name_clash"})
+                t1, t2 = (Array(r1, 2), Array(r2, 2)) if arr else (r1, r2)
+                fields = [Field(Uint(3), "pad", 1), Field(t1, "a", 2), Field(t2, "b", 3), Field(Uint(5), "tail", 4)]
+                cases.append(b.finish("M" + cid, False, fields, "HOMONYM imported/local %s %d / %d bits array=%s" % (kind, w1, w2, arr)))
     return cases
 
 
